@@ -332,6 +332,13 @@ func (p SimpleCommonMessageSignatureProof) MergeSparse(s SparseSignatureProof) S
 	bsBefore := p.bitset.Clone()
 
 	for _, sparseSig := range s.Signatures {
+		// The key ID arrives from the network: it must be exactly a big endian uint16
+		// before it is decoded (a shorter ID would panic in Uint16).
+		if !(beUint16KeyLenIDChecker{nKeys: len(p.keys)}).IsValid(sparseSig.KeyID) {
+			res.AllValidSignatures = false
+			continue
+		}
+
 		// Assuming the index can be represented in a 16 bit integer.
 		// This type is certainly not intended to support 32k public keys.
 		n := int(binary.BigEndian.Uint16(sparseSig.KeyID))
